@@ -31,6 +31,12 @@ def gen_plan(ch: Chooser, tier: str) -> dict[str, Any]:
     plan = changes.gen_change_plan(ch, faults=faulty, restarts=faulty and ch.bool(0.7), subs=True,
                                    limits=False)
     plan['tier_kind'] = 'fault' if faulty else 'fault-free'
+    if ch.bool(0.15):
+        # a slowly stopping daemon next to the change handlers (deletion then waits for it)
+        plan['operators'][0]['handlers'].append({
+            'id': 'dmx', 'kind': 'daemon',
+            'opts': {'cancellation_backoff': ch.choice([0.3, 1.0]), 'cancellation_timeout': ch.choice([0.5, 2.0])},
+            'daemon': ch.choice([{'mode': 'obey', 'exit_delay': 0.5}, {'mode': 'cancel'}, {'mode': 'ignore', 'hold': 1.0}])})
     return plan
 
 
@@ -94,7 +100,8 @@ def oracle(run: runner.Run, oc: Outcome) -> None:
                 # The cycle is closed when, after this step, nothing of ours is pending on the object.
                 view = snapshots.get((uid, s.rv))
                 state_after = s.writes[-1].after if s.writes else view
-                if s.how == 'returned' and (s.calls or s.writes) and not st.records(state_after):
+                released = s.reason != 'delete' or state_after is None or not st.has_finalizer(state_after)
+                if s.how == 'returned' and (s.calls or s.writes) and not st.records(state_after) and released:
                     cycles.append(cur)
                     cur = []
             elif s.reason in ('gone',):
@@ -130,22 +137,31 @@ def oracle(run: runner.Run, oc: Outcome) -> None:
                             if st_.seq0 <= oks[-1].seq0 and (st_.seq1 is None or st_.seq1 >= oks[0].seq0) \
                                     and st_.how != 'returned':
                                 excuse = f'step-{st_.how}'
-                    if fault_free or excuse is None:
+                    stopping = [d for d in run.calls if d.hkind == 'daemon' and d.uid == uid
+                                and d.t0 <= oks[-1].t0 and (d.t1 is None or d.t1 >= oks[0].t0)]
+                    if (fault_free or excuse is None) and stopping and cyc[0].reason == 'delete':
+                        oc.add('C02/double-success', 'delete-while-daemons-stop',
+                               f"delete handler {hid} succeeded {len(oks)} times (calls {[c.n for c in oks]}) for {uid} "
+                               f"while daemon {stopping[0].hid} of that object was still being stopped", uid=uid, hid=hid)
+                    elif fault_free or excuse is None:
                         oc.add('C02/double-success', 'fault-free' if fault_free else 'unexcused',
                                f"handler {hid} succeeded {len(oks)} times within one handling cycle of {uid} "
                                f"(calls {[c.n for c in oks]}) with no crash/lost response/echo delay in between",
                                uid=uid, hid=hid)
+                dstop = cyc[0].reason == 'delete' and any(
+                    d.hkind == 'daemon' and d.uid == uid and d.t0 <= cs[-1].t0 and (d.t1 is None or d.t1 >= cs[0].t0)
+                    for d in run.calls)
                 if fault_free and not is_parent:
                     retries = [c.retry for c in cs]
                     if retries != list(range(len(retries))):
-                        oc.add('C02/retry-number', 'sequence',
+                        oc.add('C02/retry-number', 'delete-while-daemons-stop' if dstop else 'sequence',
                                f"handler {hid}: retry numbers within one cycle are {retries}, expected 0,1,2,...",
                                uid=uid, hid=hid)
                 # no call after a final outcome within the cycle (fault-free)
                 if fault_free and not is_parent:
                     for a, b in zip(cs, cs[1:]):
                         if changes.final_outcome(a, allspecs.get(hid, {})):
-                            oc.add('C02/finished-reinvoked', 'sequence',
+                            oc.add('C02/finished-reinvoked', 'delete-while-daemons-stop' if dstop else 'sequence',
                                    f"handler {hid} was invoked again (call #{b.n}) after its final outcome "
                                    f"{a.outcome!r} (call #{a.n}) within one cycle of {uid}", uid=uid, hid=hid)
                             break
